@@ -24,7 +24,7 @@ PROPS: dict[str, dict] = {
     "C10": {"modules": ["vf.h_lower"], "harnesses": ["lower-args", "lower-yields", "lower-builder-run"]},
     "C16": {"modules": ["vf.h_presched"], "harnesses": ["presched"]},
     "C01": {"modules": ["vf.h_ctrl"], "harnesses": ["ctrl-C01"]},
-    "C02": {"modules": ["vf.h_ctrl", "vf.h_worker"], "harnesses": ["ctrl-C02", "worker-wakeup"]},
+    "C02": {"modules": ["vf.h_ctrl", "vf.h_worker"], "harnesses": ["ctrl-C02", "worker-wakeup", "act-step"]},
     "C03": {"modules": ["vf.h_ctrl"], "harnesses": ["ctrl-C03"]},
     "C04": {"modules": ["vf.h_ctrl"], "harnesses": ["ctrl-C04"]},
     "C17": {"modules": ["vf.h_wire", "vf.h_comms", "vf.h_wire2"], "harnesses": ["shm-wire-smt", "frame-sequences", "wire-pickle-json"]},
